@@ -41,8 +41,8 @@ class Opaque:
 
 
 class Ref:
-    def __init__(s, place): s.place = place
-    def __repr__(s): return f'&{s.place}'
+    def __init__(s, place, fid=None): s.place, s.fid = place, fid
+    def __repr__(s): return f'&{s.place}@{s.fid}'
 
 
 class Fn:
@@ -145,19 +145,32 @@ class Exec:
         place = place.strip()
         if place.startswith('(*') and place.endswith(')'):
             r = s.read(st, place[2:-1])
-            return s.read(st, r.place) if isinstance(r, Ref) else r
+            return s.deref(st, r) if isinstance(r, Ref) else r
         m = re.match(r'^\((.*) as (\w+)\)$', place)
         if m: return s.read(st, m.group(1))
         if place.startswith('(') and place.endswith(')') and ': ' in place:
             inner = place[1:-1]
             base, rest = s.split_proj(inner)
             b = s.read(st, base)
-            if isinstance(b, Ref): b = s.read(st, b.place)
+            if isinstance(b, Ref): b = s.deref(st, b)
             if isinstance(b, Variant): return b.fields[rest]
             if isinstance(b, Opaque): return s.stub_field(st, b, rest)
             return b[rest]
         v = st['env'][place]
         return v
+
+    def deref(s, st, r):
+        if r.fid is None:
+            base = re.match(r'[\(\*]*(\w+)', r.place).group(1)
+            if base not in st['env']:
+                for fid, env in st['frames'].items():
+                    if base in env:
+                        st2 = dict(st); st2['env'] = env; st2['fid'] = fid
+                        return s.read(st2, r.place)
+            return s.read(st, r.place)
+        if r.fid == st.get('fid'): return s.read(st, r.place)
+        st2 = dict(st); st2['env'] = st['frames'][r.fid]; st2['fid'] = r.fid
+        return s.read(st2, r.place)
 
     def split_proj(s, inner):
         # "<base>.<idx>: <ty>"
@@ -246,7 +259,7 @@ class Exec:
                 v = s.operand(st, 'copy ' + m.group(1)); return IntV(s.wrap(v.t, m.group(2)), m.group(2))
             return s.operand(st, rv)
         if rv.startswith('&'):
-            return Ref(re.sub(r'^&(mut |raw const |raw mut )?', '', rv).strip())
+            return Ref(re.sub(r'^&(mut |raw const |raw mut )?', '', rv).strip(), st.get('fid'))
         m = re.match(r'^discriminant\((.*)\)$', rv)
         if m: return ('disc', s.read(st, m.group(1)))
         m = re.match(r'^\((.*)\)$', rv)
@@ -288,6 +301,12 @@ class Exec:
             return [(T, Variant('Break', [Variant(v.name, v.fields)]))]
         if 'from_residual' in callee:
             v = A[0]; return [(T, Variant(v.name, v.fields))]
+        if re.search(r'(Result|Option)::<.*>::(unwrap|expect)$', callee):
+            v = A[0]
+            if isinstance(v, Variant) and v.name in ('Ok', 'Some'): return [(T, v.fields[0])]
+            if isinstance(v, Variant):
+                st['suboutcomes'].append(Outcome(list(st['pc']), 'panic', 'unwrap on ' + v.name, list(st['log']), st['lemmas']))
+                return []
         if re.search(r'as Clone>::clone$', callee) or callee.endswith('::cloned'):
             v = A[0]; return [(T, s.read(st, v.place) if isinstance(v, Ref) else v)]
         return None
@@ -303,6 +322,9 @@ class Exec:
         if r is not None: return r
         # in-dump body?
         cands = [f for k, f in s.fns.items() if k == callee or callee.endswith('::' + k) or k.endswith('::' + callee)]
+        if not cands and re.match(r'^\w+::\w+$', callee):
+            ty, meth = callee.split('::')
+            cands = [f for k, f in s.fns.items() if k.endswith('>::' + meth) and ty.lower() in k.split('<impl')[0].lower()]
         if len(cands) == 1 and cands[0].blocks:
             outs = s.run(cands[0], A, st)
             res = []
@@ -311,17 +333,25 @@ class Exec:
                 else: st['suboutcomes'].append(o)
             return res
         res = [(z3.BoolVal(True), Opaque(callee.split('::')[-1], A))]
+        if __import__('os').environ.get('M2S_DEBUG'): print('  [opaque call]', callee[:120])
         st['log'].append((callee, A, res))
         return res
 
     # ---- driver
     def run(s, fn, argvals, parent=None, start='bb0', pre=None, stop=()):
-        st0 = {'env': {}, 'pc': [], 'log': [], 'lemmas': [], 'memo': {}, 'suboutcomes': []}
-        if parent: st0['pc'], st0['lemmas'], st0['memo'] = list(parent['pc']), parent['lemmas'], parent['memo']
+        st0 = {'env': {}, 'pc': [], 'log': [], 'lemmas': [], 'memo': {}, 'suboutcomes': [], 'frames': {}}
+        s.nframes = getattr(s, 'nframes', 0) + 1; st0['fid'] = s.nframes
+        if parent:
+            st0['pc'], st0['lemmas'], st0['memo'] = list(parent['pc']), parent['lemmas'], parent['memo']
+            st0['frames'] = dict(parent.get('frames', {})); st0['frames'][parent.get('fid')] = parent['env']
+        st0['frames'][st0['fid']] = st0['env']
         if pre: st0['pc'] += pre
         for (name, ty), v in zip(fn.args, argvals): st0['env'][name] = v
         work, outs = [(start, st0)], []
-        def fork(st): return {'env': dict(st['env']), 'pc': list(st['pc']), 'log': list(st['log']), 'lemmas': st['lemmas'], 'memo': st['memo'], 'suboutcomes': st['suboutcomes']}
+        def fork(st):
+            n = {'env': dict(st['env']), 'pc': list(st['pc']), 'log': list(st['log']), 'lemmas': st['lemmas'], 'memo': st['memo'], 'suboutcomes': st['suboutcomes'], 'fid': st['fid']}
+            n['frames'] = dict(st['frames']); n['frames'][st['fid']] = n['env']
+            return n
         while work:
             bb, st = work.pop()
             if bb in stop:
